@@ -25,6 +25,39 @@ theorem foldl_rel {σ τ : Type} (R : σ → τ → Prop) (f : σ → α → σ)
   | nil => exact h0
   | cons a r ih => exact ih _ _ (h s t a h0)
 
+/-- The same with the item known to be in the list. -/
+theorem foldl_rel_mem {σ τ : Type} (R : σ → τ → Prop) (f : σ → α → σ) (g : τ → α → τ) (l : List α)
+    (h : ∀ s t a, a ∈ l → R s t → R (f s a) (g t a)) (s : σ) (t : τ) (h0 : R s t) :
+    R (l.foldl f s) (l.foldl g t) := by
+  induction l generalizing s t with
+  | nil => exact h0
+  | cons a r ih =>
+    exact ih (fun s t b hb => h s t b (List.mem_cons_of_mem _ hb)) _ _ (h s t a (List.mem_cons_self ..) h0)
+
+/-- Two folds whose steps agree on the states satisfying an invariant that the steps preserve (used for a loop-invariant
+read hoisted out of a loop: `let p = v[c]; for i in .. { v[idx(i)] = f(.., p) }` with `idx(i) ≠ c`). -/
+theorem foldl_congr_inv {σ : Type} (P : σ → Prop) (f g : σ → α → σ) (l : List α)
+    (h : ∀ s a, a ∈ l → P s → f s a = g s a ∧ P (g s a)) (s : σ) (h0 : P s) :
+    l.foldl f s = l.foldl g s := by
+  induction l generalizing s with
+  | nil => rfl
+  | cons a r ih =>
+    simp only [List.foldl_cons]
+    have ha := h s a (List.mem_cons_self ..) h0
+    rw [ha.1]
+    exact ih (fun s b hb => h s b (List.mem_cons_of_mem _ hb)) _ ha.2
+
+/-- `for (i, &p) in v.iter().enumerate() { s = f(s, p, i) }` is the index loop `for i in 0..v.len() { s = f(s, v[i], i) }`. -/
+theorem foldl_zipIdx_eq_foldl_range [Inhabited α] {σ : Type} (f : σ → α → Nat → σ) (l : List α) (s : σ) :
+    (l.zipIdx).foldl (fun s p => f s p.1 p.2) s = (List.range l.length).foldl (fun s i => f s l[i]! i) s := by
+  have h : l.zipIdx = (List.range l.length).map (fun i => (l[i]!, i)) := by
+    apply List.ext_getElem
+    · simp
+    · intro i h1 h2
+      simp only [List.length_zipIdx] at h1
+      simp [h1]
+  rw [h, List.foldl_map]
+
 /-- Two folds whose step functions agree on the items of the list. -/
 theorem foldl_congr_mem {σ : Type} (f g : σ → α → σ) (l : List α) (h : ∀ s a, a ∈ l → f s a = g s a) (s : σ) :
     l.foldl f s = l.foldl g s := by
@@ -212,6 +245,14 @@ theorem foldl_foldl_eq_foldl_pairs {σ : Type} (f : σ → α → γ → σ) (m 
   | cons a t ih =>
     simp only [List.foldl_cons, List.flatMap_cons, List.foldl_append, List.foldl_map]
     exact ih _
+
+/-- `for a in l { v.extend(g(a)) }` is `v ++ l.flat_map(g)` (bridge between the fold-with-append and the `flatMap` spelling of a
+loop that only extends). -/
+theorem foldl_append_eq_flatMap (g : α → List β) (init : List β) (l : List α) :
+    l.foldl (fun acc a => acc ++ g a) init = init ++ l.flatMap g := by
+  induction l generalizing init with
+  | nil => simp
+  | cons a t ih => simp only [List.foldl_cons, List.flatMap_cons]; rw [ih, List.append_assoc]
 
 /-- membership in the pair list of two ranges -/
 theorem mem_pairs_range (r c : Nat) (q : Nat × Nat) :
